@@ -76,7 +76,7 @@ fn common_setup(ctx: &mut Ctx, what: &str) {
     );
     ctx.bound("flavours", "borrowed/owned x {bare, PacketBuilder, one-member compound, compound of PacketBuilder} rotated over the index; every packet-builder configuration additionally in the probed flavour (builder queried after every call)");
     ctx.bound("buffer lengths", "all 0..=n+8 for small spaces and n<=128; else {0,1,n-4,n-1,n,n+1,n+8,2n} plus one index-rotated length");
-    ctx.bound("compound member lists", ctx.tier.pick("length 0..=3 over a 20-kind menu", "length 0..=4 over a 20-kind menu"));
+    ctx.bound("compound member lists", ctx.tier.pick("length 0..=3 over a 27-kind menu", "length 0..=4 over a 27-kind menu"));
     ctx.assume("configurations outside the enumerated product spaces (DESIGN.md section 3) are not explored");
 }
 
